@@ -24,3 +24,24 @@ Theorem C05_stamp :
     get_string tag_SendingTime (m_header (stamped s m)) = sending_time_placeholder.
 Proof. intros s m H. split; [apply stamped_seq; exact H|apply stamped_ids; exact H]. Qed.
 Print Assumptions C05_stamp.
+
+(* ---- concurrency layer ---- *)
+From Coq Require Import String List NArith.
+From SF Require Import Conc Sites.
+
+(* In the table regenerated from the source on this run, Session.send takes the outbound number
+   and hands the message to the outgoing channel inside one exclusive section of Session.mu that
+   lasts until the function returns, and no other function takes outbound numbers. *)
+Theorem C05_critical_section : critical_ok site_names site_funcs = true.
+Proof. vm_compute. reflexivity. Qed.
+Print Assumptions C05_critical_section.
+
+(* For programs of that shape, in every interleaving of any number of threads each running the
+   section any number of times, the numbers reach the channel in the order they were taken (at
+   most the one in hand is missing). Composed with C04's FIFO pipeline (channel -> single writer
+   -> socket) the wire carries them in that order. *)
+Theorem C05_enqueue_order :
+  forall tr s, srun sinit tr = Some s ->
+    taken s = queued s \/ exists n, taken s = (queued s ++ n :: nil)%list.
+Proof. exact enqueue_order_is_take_order. Qed.
+Print Assumptions C05_enqueue_order.
